@@ -436,7 +436,7 @@ func Test_sqlStore_wipeOnSeedChange(t *testing.T) {
 
 	t.Run("empty database", func(t *testing.T) {
 		c := setupStore(t, storageEngine.GetSQLDatabase())
-		_, err := c.wipeOnSeedChange(testServiceID, "other")
+		err := c.wipeOnSeedChange(testServiceID, "other")
 		require.NoError(t, err)
 	})
 	t.Run("1 entry wiped, 1 remains", func(t *testing.T) {
@@ -446,7 +446,7 @@ func Test_sqlStore_wipeOnSeedChange(t *testing.T) {
 		_, err = c.add("other", vpAlice, testSeed, 0)
 		require.NoError(t, err)
 
-		_, err = c.wipeOnSeedChange(testServiceID, "other")
+		err = c.wipeOnSeedChange(testServiceID, "other")
 		require.NoError(t, err)
 
 		vps, err := c.search(testServiceID, map[string]string{}, true)
